@@ -68,7 +68,9 @@ static int run_c15(uint64_t seed, long from, long to) {
                 long long n = r.below(3 * c + 2);
                 if (r.chance(1, 8) && m.fs != INF) n = m.fs - m.g + r.below(3);      // aim at the declared end
                 if (n < 0) n = 0;
-                bool wouldblock = !((n + m.g <= m.p) || (n + m.g > m.fs));
+                // a read past the declared end is only defined when everything up to that end has been written (end <= put position);
+                // while the declared end lies ahead of the put position, only reads that are already satisfiable are generated
+                bool wouldblock = !((n + m.g <= m.p) || (n + m.g > m.fs && m.fs <= m.p));
                 if (wouldblock) continue;
                 std::vector<char> s(n + 1, 0x55);
                 u.read(s.data(), n);
@@ -98,6 +100,7 @@ static int run_c15(uint64_t seed, long from, long to) {
             } else if (op == 8) {
                 if (r.chance(2, 3)) continue;
                 long long v = (r.chance(1, 2) || m.g >= m.p) ? m.p : m.g + (long long)r.below((uint32_t)(m.p - m.g + 1));
+                if (r.chance(1, 4)) v = m.p + 1 + (long long)r.below(2 * c + 1);      // declared end ahead of the put position: a later write may pass it
                 if (v < m.g) continue;          // declared end below the get position is outside the model
                 u.setFileSize(v); m.fs = v;
                 h << "fs" << v << " ";
